@@ -174,11 +174,46 @@ func (a *acceptor) filter(ok func(p phase) bool) bool {
 	return len(next) > 0
 }
 
-func (a *acceptor) quiet() bool {
-	return a.filter(func(p phase) bool { return complete(p) || p == phS0 || p == phS })
+// cancelRule: a cancel that stayed silent found a subscription under its operation ID and closed its
+// feed, so (once things are quiet) some subscription of that ID has finished.
+func cancelRule(c []areq) bool {
+	for _, r := range c {
+		if r.kind == "cancel" && r.ph == phC {
+			found := false
+			for _, s := range c {
+				if s.op == r.op && (s.kind == "sub" || s.kind == "qsub") && s.ph == phFin {
+					found = true
+				}
+			}
+			if !found {
+				return false
+			}
+		}
+	}
+	return true
 }
 
-func (a *acceptor) final() bool { return a.filter(complete) }
+func (a *acceptor) quiet() bool {
+	if !a.filter(func(p phase) bool { return complete(p) || p == phS0 || p == phS }) {
+		return false
+	}
+	var next [][]areq
+	for _, c := range a.configs {
+		if cancelRule(c) {
+			next = append(next, c)
+		}
+	}
+	a.configs = next
+	return len(next) > 0
+}
+
+func (a *acceptor) final() bool { return a.quiet() }
+
+// down: the connection went away; one-shot requests are complete (their handlers do not look at the
+// teardown signal and have returned), queries and subscriptions may be anywhere.
+func (a *acceptor) down() bool {
+	return a.filter(func(p phase) bool { return p != phGet1 && p != phWrite1 && p != phBad1 })
+}
 
 // describe renders the surviving attributions of one operation ID (for violation messages).
 func (a *acceptor) describe(op string) string {
